@@ -100,10 +100,31 @@ theorem setLastDiag_one {d : ℕ} : setLastDiag (eyeLike (one : Mat d d)) (-1) =
     have : ¬ (i.val + 1 = d ∧ j.val + 1 = d) := by omega
     simp [hij, this]
 
+/-! ### numpy's operators (`Core/C07Src.lean: Np`, chosen by the operand types) in the words of the model
+
+`npNorm` is the simp set every equality proof starts with: whatever sub-expression the Python names or inlines, the
+translated term is brought to the same normal form. -/
+
+theorem np_sub_mat {n m : ℕ} (A B : Mat n m) : @HSub.hSub _ _ _ Np.subMat A B = msub A B := rfl
+theorem np_sub_vec {d : ℕ} (a b : Vec d) : @HSub.hSub _ _ _ Np.subVec a b = vsub a b := rfl
+theorem np_sub_row {n d : ℕ} (P : Mat n d) : @HSub.hSub _ _ _ Np.subRow P (centroid P) = centred P := rfl
+theorem np_neg_vec {d : ℕ} (v : Vec d) : @Neg.neg _ Np.negVec v = negV v := rfl
+theorem np_div_nat {n d : ℕ} (l : List (Mat n d)) (k : ℕ) : @HDiv.hDiv _ _ _ Np.divNat (sumL l) k = sumDivL l k := rfl
+theorem np_count_below {m : ℕ} (s : Vec m) (t : ℚ) : countTrue (belowV s t) = countBelow s t := rfl
+theorem np_eye_rows {d : ℕ} (U : Mat d d) : (one : Mat (rowsOf U) (rowsOf U)) = eyeLike U := rfl
+theorem np_inv_col {n m : ℕ} (k : ℕ) (s : Vec n) (V : Mat n m) :
+    @HMul.hMul _ _ _ Np.mulCol (@HDiv.hDiv _ _ _ Np.divCol (1 : ℚ) (ColK.mk k s)) (rowsTo k V) = rowScaleInv k s V := by
+  funext i j
+  show (if i.val < k then (1 : ℚ) / s i * rowsTo k V i j else 0) = rowScaleInv k s V i j
+  simp only [rowsTo, rowScaleInv]
+  split <;> rfl
+theorem vsub_centroid {n d : ℕ} (S T : Mat n d) : vsub (centroid T) (centroid S) = fitTranslationVec S T := rfl
+
 /-! ### shape/pointcloud.py -/
 
 theorem genPointCloudCentre_eq {n d : ℕ} (P : Mat n d) : genPointCloudCentre P = centroid P := rfl
-theorem genPointCloudNorm_eq {n d : ℕ} (ext : Ext) (P : Mat n d) : genPointCloudNorm ext P = normExt ext P := rfl
+theorem genPointCloudNorm_eq {n d : ℕ} (ext : Ext) (P : Mat n d) : genPointCloudNorm ext P = normExt ext P := by
+  simp only [genPointCloudNorm, genPointCloudCentre_eq, np_sub_row, normExt]
 
 /-! ### base.py / alignment.py -/
 
@@ -118,7 +139,8 @@ theorem genAlignedSource_hobj {n d : ℕ} (a : HObj n d) :
     genAlignedSource HObj.ops a = a.toAlignObj.alignedSource := rfl
 
 theorem genAlignmentError_eq {Obj Src : Type} {n d : ℕ} (ext : Ext) (ops : ObjOps Obj Src (Mat n d)) (a : Obj) :
-    genAlignmentError ext ops a = ext.frob (msub (ops.target a) (ops.apply a (ops.source a))) := rfl
+    genAlignmentError ext ops a = ext.frob (msub (ops.target a) (ops.apply a (ops.source a))) := by
+  simp only [genAlignmentError, genAlignedSource_eq, np_sub_mat]
 
 theorem genTargetSetter_eq {Obj Src Tgt : Type} (ops : ObjOps Obj Src Tgt) (a : Obj) (T : Tgt) :
     genTargetSetter ops a T = ops.setTarget a T := rfl
@@ -138,11 +160,13 @@ theorem genSetTarget_eq {Obj Src Tgt : Type} (ops : ObjOps Obj Src Tgt) (sync : 
 /-! ### translation.py -/
 
 theorem genTranslationInit_eq {n d : ℕ} (ext : Ext) (self : HObj n d) (S T : Mat n d) :
-    genTranslationInit ext self S T = ⟨S, T, fitTranslation S T, self.rotation, self.allowMirror⟩ := rfl
+    genTranslationInit ext self S T = ⟨S, T, fitTranslation S T, self.rotation, self.allowMirror⟩ := by
+  simp only [genTranslationInit, genAlignmentInit_eq, genPointCloudCentre_eq, np_sub_vec, vsub_centroid]
+  rfl
 
 theorem genTranslationSync_eq {n d : ℕ} (ext : Ext) (a : HObj n d) (v : Vec d) (h : a.h = translationH v) :
     genTranslationSync ext a = { a with h := fitTranslation a.source a.target } := by
-  simp only [genTranslationSync, HObj.setH, h, setTransCol_translationH, genPointCloudCentre_eq]
+  simp only [genTranslationSync, HObj.setH, h, setTransCol_translationH, genPointCloudCentre_eq, np_sub_vec, vsub_centroid]
   rfl
 
 /-- one `set_target` on a translation alignment = the constructor on the new target -/
@@ -208,7 +232,7 @@ theorem genOptimalRotationMatrix_eq {n d : ℕ} (ext : Ext) (S T : Mat n d) (m :
   simp only [genOptimalRotationMatrix, rotFitExt, rotFit, corr]
   cases m
   · by_cases hd : det (mul (ext.svd (mul (tr T) S)).1 (ext.svd (mul (tr T) S)).2.2) < 0
-    · simp [hd, signQ_neg_iff, signQ_of_neg hd, setLastDiag_one, eyeLike]
+    · simp [hd, signQ_neg_iff, signQ_of_neg hd, np_eye_rows, setLastDiag_one, eyeLike]
       rw [← setLastDiag_one]; rfl
     · simp [hd, signQ_neg_iff]
   · simp
@@ -236,7 +260,7 @@ theorem rotation_retarget {n d : ℕ} (ext : Ext) (self : HObj n d) (S T₀ T : 
 
 theorem genProcrustesAlignment_eq {n d : ℕ} (ext : Ext) (S T : Mat n d) (rotation m : Bool) :
     genProcrustesAlignment ext S T rotation m = simFitExt ext rotation m S T := by
-  simp only [genProcrustesAlignment, simFitExt, simFit, genPointCloudCentre_eq, genPointCloudNorm_eq,
+  simp only [genProcrustesAlignment, simFitExt, simFit, genPointCloudCentre_eq, genPointCloudNorm_eq, np_neg_vec,
     translationInv_translationH, genOptimalRotationMatrix_eq]
   cases rotation <;> rfl
 
